@@ -929,6 +929,83 @@ func c13RestartDuringDrain(w *core.W, kind string, seed uint64) {
 	sched.Use(nil)
 }
 
+// scenario: one Server value is used for two runs over different transports (its fields keep
+// whatever the first run stored in them): every run must answer, shut down and leave nothing behind.
+func c13ReuseScenario(w *core.W, order int, seed uint64) {
+	e := newC13Env(w, "none", fmt.Sprintf("reuse-other-transport/%d", order), seed)
+	defer sched.Use(nil)
+	e.kind = "real-loopback"
+	nets := [][]string{{"udp", "tcp"}, {"tcp", "udp"}, {"udp", "tcp", "udp"}, {"tcp", "tcp"}}[order%4]
+	var handled atomic.Int32
+	e.srv.Handler = dns.HandlerFunc(func(rw dns.ResponseWriter, req *dns.Msg) {
+		handled.Add(1)
+		r := new(dns.Msg)
+		r.SetReply(req)
+		rw.WriteMsg(r)
+	})
+	e.srv.Addr = "127.0.0.1:0"
+	w.Eval(1)
+	for run, network := range nets {
+		started := make(chan struct{})
+		var once sync.Once
+		e.srv.NotifyStartedFunc = func() { once.Do(func() { close(started) }) }
+		e.srv.Net = network
+		serveErr := make(chan error, 1)
+		go func() { serveErr <- e.srv.ListenAndServe() }()
+		select {
+		case <-started:
+		case err := <-serveErr:
+			e.viol("reuse/start-fails", fmt.Sprintf("run %d (%s): ListenAndServe returned %v", run, network, err))
+			return
+		case <-time.After(c13Watch):
+			e.viol("reuse/start-blocks", fmt.Sprintf("run %d (%s): the server did not start", run, network))
+			return
+		}
+		var addr string
+		if network == "udp" {
+			addr = e.srv.PacketConn.LocalAddr().String()
+		} else {
+			addr = e.srv.Listener.Addr().String()
+		}
+		cl := &dns.Client{Net: network, Timeout: 3 * time.Second}
+		q := new(dns.Msg)
+		q.SetQuestion(fmt.Sprintf("run%d.example.", run), dns.TypeA)
+		if _, _, err := cl.Exchange(q, addr); err != nil {
+			e.viol("reuse/no-answer", fmt.Sprintf("run %d (%s) of a reused Server does not answer: %v", run, network, err))
+		}
+		sdErr := make(chan error, 1)
+		go func() { sdErr <- e.srv.Shutdown() }()
+		select {
+		case err := <-sdErr:
+			if err != nil {
+				e.viol("reuse/shutdown-error", fmt.Sprintf("run %d (%s): Shutdown returned %v", run, network, err))
+			}
+		case <-time.After(c13Watch):
+			e.viol("reuse/shutdown-does-not-return", fmt.Sprintf("run %d (%s) of a reused Server: Shutdown does not return (networks %v)", run, network, nets))
+			return
+		}
+		select {
+		case err := <-serveErr:
+			if err != nil {
+				e.viol("reuse/serve-error", fmt.Sprintf("run %d (%s): the serve call returned %v", run, network, err))
+			}
+		case <-time.After(c13Watch):
+			e.viol("reuse/serve-call-does-not-return", fmt.Sprintf("run %d (%s): the serve call did not return after Shutdown", run, network))
+			return
+		}
+	}
+	deadline := time.Now().Add(3 * time.Second)
+	for serverGoroutines() > 0 && time.Now().Before(deadline) {
+		time.Sleep(5 * time.Millisecond)
+	}
+	if n := serverGoroutines(); n > 0 {
+		e.viol("reuse/goroutine-leak", fmt.Sprintf("%d server goroutine(s) remain after the last run", n))
+	}
+	w.Count("scenarios", 1)
+	w.Count("reuse_runs", len(nets))
+	w.NontrivialStr("reuse", fmt.Sprint(nets))
+}
+
 type c13Case struct {
 	name string
 	run  func(w *core.W, seed uint64)
@@ -972,6 +1049,7 @@ func c13Cases() []c13Case {
 	for v := 0; v < 4; v++ {
 		v := v
 		cs = append(cs, c13Case{fmt.Sprintf("failed start %d", v), func(w *core.W, s uint64) { c13FailedStartScenario(w, v, s) }})
+		cs = append(cs, c13Case{fmt.Sprintf("reuse over other transport %d", v), func(w *core.W, s uint64) { c13ReuseScenario(w, v, s) }})
 	}
 	return cs
 }
